@@ -184,8 +184,30 @@ pub fn tuple_body() {
     let r1 = <(i64, u64) as Deserialize>::deserialize(l1.into_deserializer());
     let short_is_err = r1.is_err();
     std::mem::forget(r1);
+    let l3 = FieldValue::List(std::sync::Arc::new([FieldValue::Int64(a), FieldValue::Uint64(b), FieldValue::Int64(a)]));
+    let r3 = <(i64, u64) as Deserialize>::deserialize(l3.into_deserializer());
+    let long_is_err = r3.is_err();
+    std::mem::forget(r3);
     assert!(ok, "tuple decode is position-wise exact");
-    assert!(short_is_err, "a list of the wrong length is not a tuple");
+    assert!(short_is_err, "a shorter list is not a tuple");
+    assert!(long_is_err, "a longer list is not silently truncated into a tuple");
+}
+
+/// A sequence target from a source that is not a list is an error (never a fabricated list).
+pub fn vec_from_non_list_body(v: FieldValue) {
+    let r = <Vec<i64> as Deserialize>::deserialize(v.into_deserializer());
+    let is_err = r.is_err();
+    std::mem::forget(r);
+    assert!(is_err, "Vec target from a non-list source must be an error");
+}
+
+/// `Vec<Vec<i64>>` from a flat list of integers is an error (elements are not lists).
+pub fn nested_vec_from_flat_body() {
+    let l = FieldValue::List(std::sync::Arc::new([FieldValue::Int64(kani::any())]));
+    let r = <Vec<Vec<i64>> as Deserialize>::deserialize(l.into_deserializer());
+    let is_err = r.is_err();
+    std::mem::forget(r);
+    assert!(is_err, "Vec<Vec<_>> target from a flat list must be an error");
 }
 
 /// `String` / `Option<String>` targets from string values of N bytes.
@@ -233,6 +255,14 @@ pub mod containers {
     g!(tuple_i64_u64, 6, tuple_body(););
     g!(string_targets, 6, string_body::<0>(); string_body::<1>(); string_body::<2>(););
     g!(string_from_int, 6, string_from_int_body(););
+    g!(vec_from_non_list, 6,
+        vec_from_non_list_body(crate::mkv!(I));
+        vec_from_non_list_body(crate::mkv!(U));
+        vec_from_non_list_body(crate::mkv!(B));
+        vec_from_non_list_body(crate::mkv!(S1));
+        vec_from_non_list_body(crate::mkv!(N));
+    );
+    g!(nested_vec_from_flat, 6, nested_vec_from_flat_body(););
 }
 
 pub mod thorough {
